@@ -148,7 +148,18 @@ impl PathSelector {
         // look into the groups the pattern may start with, e.g. `{/a,/b}/**`
         let mut s = s.as_str();
         while let Some(rest) = s.strip_prefix('(') {
-            s = rest.strip_prefix("?:").unwrap_or(rest);
+            s = match rest.strip_prefix('?') {
+                // a non-capturing group or inline flags: `(?:`, `(?i)`, `(?i-u:`
+                Some(flags) => {
+                    let after =
+                        flags.trim_start_matches(|c: char| c.is_ascii_alphabetic() || c == '-');
+                    after
+                        .strip_prefix(':')
+                        .or_else(|| after.strip_prefix(')'))
+                        .unwrap_or(rest)
+                }
+                None => rest,
+            };
         }
         s.starts_with(".*") || Path::from(s).is_absolute()
     }
